@@ -61,6 +61,11 @@ def main():
                         if kind == 'ok':
                             conf.append([repr(val), bool(is_subtype(get_pedal_type_from_value(val), t))])
             rec['conformance'] = conf
+            # the same operator through an augmented assignment:  r = A ; r OP= b
+            if op in ('Add', 'Sub', 'Mult', 'Div', 'FloorDiv', 'Mod', 'Pow', 'LShift', 'RShift', 'BitOr', 'BitXor', 'BitAnd'):
+                code2 = 'r = %s\nb = %s\nr %s= b\n' % (SAMPLES[a][0], SAMPLES[b][0], SYMS[op])
+                r2, inc2, t2 = analyse(code2)
+                rec['aug'] = {'success': bool(r2.success), 'incompatible': inc2, 'type': None if t2 is None else type(t2).__name__}
         except Exception as e:
             rec['raised'] = type(e).__name__ + ': ' + str(e)[:100]
         out['cells'].append(rec)
